@@ -156,3 +156,138 @@ def _gen_s2l(rng):
 
 linear_to_ssa.gen = _gen_l2s
 ssa_to_linear.gen = _gen_s2l
+
+
+# ----------------------------------------------------------- tree -> linear path
+import z3 as _z3
+
+from ..pyvc.engine import ObjT as _ObjT
+from ..pyvc.types import V as _V
+
+NodeK = Ty.Key
+TreePT = _ObjT("ContractionTree", {"N": Ty.Int})
+NidT = Ty.Map(Ty.Key, Ty.Int)
+
+
+def _memo_list(name, elem_t):
+    def ext(engine, st, args, node, kwargs):
+        memo = engine.__dict__.setdefault("_memo_lists", {})
+        if name not in memo:
+            t = Ty.List(elem_t)
+            memo[name] = _V(t, [_z3.Const(f"{name}.{j}", srt) for j, srt in enumerate(t.sorts())])
+        st.assume(memo[name].c[0] >= 0)
+        return memo[name]
+
+    return ext
+
+
+def _dict_zip_leaves(engine, st, args, node, kwargs):
+    """dict(zip(self.gen_leaves(), ssas)) with ssas == list(range(N)): leaf p -> p."""
+    lv = engine.external(st, "ContractionTree.gen_leaves", [st.vars["self"]], node)
+    ssas = engine.deref(st, st.vars["ssas"])
+    k = _z3.Int("dz!k")
+    p = _z3.Int("dz!p")
+    n = _z3.If(lv.c[0] < ssas.c[0], lv.c[0], ssas.c[0])
+    dom = _z3.Lambda([k], _z3.Exists([p], _z3.And(0 <= p, p < n, lv.c[1][p] == k)))
+    # value: the position of the leaf (well defined because the leaves are distinct: precondition)
+    pos = _z3.Function("dz!pos", Ty.IntS, Ty.IntS)
+    st.assume(_z3.ForAll([p], _z3.Implies(_z3.And(0 <= p, p < n), pos(lv.c[1][p]) == ssas.c[1][p])))
+    return engine.alloc(st, _V(NidT, [dom, _z3.Lambda([k], pos(k))]))
+
+
+_dict_zip_leaves.raw = True
+
+L = "TR[t - 1][1]"
+R = "TR[t - 1][2]"
+get_path = Contract(
+    target="cotengra.core:ContractionTree.get_path",
+    props=["C10", "C05"],
+    self_type=TreePT,
+    params={},
+    ghost={"nid": (NidT, "{**{nd: i for i, nd in enumerate(LV)}, **{TR[t][0]: self.N + t for t in range(len(TR))}}")},
+    lets={"TR": "list(self.traverse(order=None))", "LV": "list(self.gen_leaves())", "n": "len(TR)", "N": "self.N"},
+    externals={
+        "ContractionTree.traverse": _memo_list("TRP", Ty.Tuple([NodeK, NodeK, NodeK])),
+        "ContractionTree.gen_leaves": _memo_list("LVP", NodeK),
+        "dict": _dict_zip_leaves,
+    },
+    requires=[
+        "N >= 1 and len(LV) == N and n <= N - 1",
+        # nid: every node's SSA id (leaf p -> p, t-th parent -> N + t); node keys are distinct
+        "forall(0, N, lambda p: LV[p] in nid and nid[LV[p]] == p)",
+        "forall(0, n, lambda t: TR[t][0] in nid and nid[TR[t][0]] == N + t)",
+        "forall(0, N, lambda p: forall(0, N, lambda q: implies(p < q, LV[p] != LV[q])))",
+        # bottom-up order: both children exist before their parent and differ
+        "forall(0, n, lambda t: TR[t][1] in nid and TR[t][2] in nid and nid[TR[t][1]] < N + t and nid[TR[t][2]] < N + t and 0 <= nid[TR[t][1]] and 0 <= nid[TR[t][2]] and nid[TR[t][1]] != nid[TR[t][2]])",
+        # a node is contracted at most once
+        "forall(0, n, lambda t: forall(0, n, lambda u: implies(t < u, nid[TR[t][1]] != nid[TR[u][1]] and nid[TR[t][1]] != nid[TR[u][2]] and nid[TR[t][2]] != nid[TR[u][1]] and nid[TR[t][2]] != nid[TR[u][2]])))",
+        # distinct nodes have distinct ids (the id map is injective on the nodes used)
+        "forall(keys(nid), lambda x: forall(keys(nid), lambda y: implies(nid[x] == nid[y], x == y)))",
+    ],
+    returns=PathT,
+    hints={"path": PathT},
+    ensures=[
+        "len(result) == n",
+        # every emitted step references two different positions that exist at that step
+        "forall(0, n, lambda t: 0 <= result[t][0] and result[t][0] < result[t][1] and result[t][1] < N - t)",
+    ],
+    nloops=1,
+    loops={
+        0: Loop(
+            pos="t",
+            inv=[
+                "ssa == N + t", "len(ssas) == N - t", "len(path) == t",
+                "forall(0, len(ssas), lambda p: forall(0, len(ssas), lambda q: implies(p < q, ssas[p] < ssas[q])))",
+                "forall(0, len(ssas), lambda p: 0 <= ssas[p] and ssas[p] < ssa)",
+                "forall(0, t, lambda u: 0 <= path[u][0] and path[u][0] < path[u][1] and path[u][1] < N - u)",
+                # the node -> id map built so far agrees with nid on exactly the nodes created so far
+                "forall(keys(nid), lambda x: implies(0 <= nid[x] and nid[x] < ssa, x in node_to_ssa and node_to_ssa[x] == nid[x]))",
+                "forall(keys(where), lambda x: 0 <= where[x] and where[x] < len(ssas) and ssas[where[x]] == x)",
+                f"forall(lambda x: (x in where) == (0 <= x and x < ssa and forall(0, t, lambda u: nid[TR[u][1]] != x and nid[TR[u][2]] != x)))",
+            ],
+            ghosts={
+                "where": (
+                    "mapof(lambda x: 0 <= x and x < N, lambda x: x)",
+                    f"mapof(lambda x: (x in prev(where) and x != nid[{L}] and x != nid[{R}]) or x == prev(ssa),"
+                    " lambda x: (len(ssas) - 1) if x == prev(ssa) else (prev(where)[x] - (1 if prev(where)[x] > i else 0) - (1 if prev(where)[x] > j else 0)))",
+                )
+            },
+            cuts={
+                2: ["lssa == nid[TR[t][1]] and rssa == nid[TR[t][2]]",
+                    "lssa in where and rssa in where",
+                    "ssas[where[lssa]] == lssa and ssas[where[rssa]] == rssa",
+                    "where[lssa] != where[rssa]"],
+                3: ["(i == where[lssa] and j == where[rssa]) or (i == where[rssa] and j == where[lssa])",
+                    "i < j and j < len(ssas)"],
+            },
+            step=[
+                f"lssa == nid[{L}] and rssa == nid[{R}]",
+                f"nid[{L}] in prev(where) and nid[{R}] in prev(where)",
+                f"prev(ssas)[prev(where)[nid[{L}]]] == nid[{L}] and prev(ssas)[prev(where)[nid[{R}]]] == nid[{R}]",
+                f"prev(where)[nid[{L}]] != prev(where)[nid[{R}]]",
+                f"(i == prev(where)[nid[{L}]] and j == prev(where)[nid[{R}]]) or (i == prev(where)[nid[{R}]] and j == prev(where)[nid[{L}]])",
+                "i < j",
+                "len(ssas) == prev(len(ssas)) - 1 and ssas[len(ssas) - 1] == prev(ssa)",
+                "forall(0, len(ssas) - 1, lambda p: ssas[p] == (prev(ssas)[p] if p < i else (prev(ssas)[p + 1] if p < j - 1 else prev(ssas)[p + 2])))",
+            ],
+        )
+    },
+    assumptions=["traverse() yields a fixed sequence of (parent, left, right) triples in a bottom-up order (checked for the real traversals by the bounded driver); order=None"],
+)
+CONTRACTS.append(get_path)
+
+
+def _gen_get_path(rng):
+    import cotengra as ctg
+    from ..scope import random_tree_ssa
+
+    n = rng.randint(1, 6)
+    con = ctg.utils.rand_equation(max(n, 2), 3, seed=rng.randint(0, 10**6)) if n > 1 else None
+    if n == 1:
+        tree = ctg.ContractionTree([("a",)], ("a",), {"a": 2})
+    else:
+        tree = ctg.ContractionTree.from_path(con.inputs, con.output, con.size_dict, ssa_path=random_tree_ssa(n, rng))
+    return {"self": tree, "args": (), "universe": list(tree.info) + list(range(-1, 14)), "describe": f"tree children {[(sorted(p), sorted(l), sorted(r)) for p, (l, r) in tree.children.items()]}"}
+
+
+get_path.gen = _gen_get_path
